@@ -2,6 +2,7 @@
 from mirlib import *
 import norm_rules
 import xml_rules
+import simple_rules
 
 TECHNIQUE = "abstract interpretation of Range::normalize over a float class domain (NaN / ±inf / sign / bounded) with the constructor invariant of Range established by edge dominance; clamp precondition discharge; assume-prune decision table of normalize_value; interprocedural source summaries of the four *_from_pointcloud siblings; expression trees of the data-type ranges"
 EXPLANATION = (
@@ -30,5 +31,6 @@ def run(ctx):
         norm_rules.type_ranges(ctx, prog, "R3")
         norm_rules.limit_parse_types(ctx, prog, "R3")
         xml_rules.type_attributes(ctx, prog, "R3")
+        simple_rules.formulas(ctx, prog, "R3")
         norm_rules.normalize_value_table(ctx, prog, "R4", "R4")
     ctx.cfg = None
